@@ -78,24 +78,30 @@ def make_ctx(cfg, agent: str = "A", turn_id: Any = 1, now_ms: int = 1_750_000_00
 # ------------------------------------------------------------------------------------------------
 
 _GLOBALS = [
-    ("clematis.engine.stages.t1", ["_T1_CACHE", "_T1_CACHE_CFG", "_T1_CACHE_KIND"]),
-    ("clematis.engine.stages.t2.cache", ["_T2_CACHE", "_T2_CACHE_CFG", "_T2_CACHE_KIND"]),
+    # (module, attributes reset to None, dict attributes cleared) -- at least one per module must exist
+    ("clematis.engine.stages.t1", ["_T1_CACHE", "_T1_CACHE_CFG", "_T1_CACHE_KIND"], ["_PROCESS_SLOT"]),
+    ("clematis.engine.stages.t2.cache", ["_T2_CACHE", "_T2_CACHE_CFG", "_T2_CACHE_KIND"], ["_PROCESS_SLOT"]),
 ]
 
 
 def reset_engine_globals() -> None:
-    """Reset the engine's process-global stage caches. A renamed global fails loudly (harness error)."""
+    """Reset the engine's process-level stage caches. A renamed global fails loudly (harness error)."""
     import importlib
 
-    for modname, names in _GLOBALS:
+    for modname, names, dicts in _GLOBALS:
         mod = importlib.import_module(modname)
         found = 0
         for n in names:
             if hasattr(mod, n):
                 setattr(mod, n, None)
                 found += 1
+        for n in dicts:
+            d = getattr(mod, n, None)
+            if isinstance(d, dict):
+                d.clear()
+                found += 1
         if found == 0:
-            raise RuntimeError(f"harness: none of {names} exist on {modname}; update harness/world.py")
+            raise RuntimeError(f"harness: none of {names + dicts} exist on {modname}; update harness/world.py")
 
 
 @contextlib.contextmanager
